@@ -27,9 +27,10 @@ def run_real(c):
 
 
 def _get_once(c, root):
-    src = YamlTargetSource({"root_dir": root, "template": "jinja" if c["engine"] else None,
-                            "merge_lists": c["ml"], "merge_sets": c["ms"],
-                            "allow_empty_top": c["allow_empty"], "cache_size": c.get("cache_size", 64)})
+    cfg = {"root_dir": root, "template": "jinja" if c["engine"] else None, "merge_lists": c["ml"], "merge_sets": c["ms"],
+           "allow_empty_top": c["allow_empty"], "cache_size": c.get("cache_size", 64)}
+    cfg.update(c.get("raw_config") or {})
+    src = YamlTargetSource(cfg)
     pd = copy.deepcopy(c["pd"])
     try:
         d, v = src.get_data(c["sys"], pd, c["pv"])
@@ -133,13 +134,82 @@ FALSY_DOCS = ["[]\n", "false\n", "0\n", "''\n", "{}\n", "~\n", "# only a comment
 
 
 def falsy_family():
-    """fault injection (os.stat or open of one file fails with EIO/EACCES/ESTALE during the call: every file of three "
+    """limits (include chains of depth 16/17/40/100, include and top lists of 17/40/100 files, directory depth 20, name "
+            "segments of 240 characters, keys and values of 4096 characters, 300 keys, unusual characters), special values "
+            "at nesting depth 2-4 of an overriding piece, truthy/falsy non-bool configuration values; fault injection (os.stat or open of one file fails with EIO/EACCES/ESTALE during the call: every file of three "
             "trees, incl. one where both name.yaml and name/init.yaml exist); falsy / empty / non-mapping documents as top.yaml and as data files (also as an included file)"""
     out = []
     for doc in FALSY_DOCS:
         out.append({"top.yaml": doc, "a.yaml": "k: 1\n"})
         out.append({"top.yaml": "'*': [a]\n", "a.yaml": doc})
         out.append({"top.yaml": "'*': [a, b]\n", "a.yaml": "k: 1\ninclude: [c]\n", "b.yaml": "m: 1\n", "c.yaml": doc})
+    return out
+
+
+def nested_value_family():
+    """two applicable pieces share a mapping-valued key; the later one sets a NESTED key (depth 2..4) to each special
+    value (null, empty, falsy, ...) - through the top list, through an include before / after the data, and across
+    the before/after pieces of one file"""
+    out = []
+    specials = ["~", "''", "0", "false", "{}", "[]", "' '", "\"\\t\"", "!!set {}", "x"]
+    for depth in (2, 3, 4):
+        def nest(leaf):
+            t = "k: %s" % leaf
+            for i in range(depth - 1):
+                t = "n%d: {%s}" % (depth - 2 - i, t)
+            return t + "\n"
+        early = nest("1")
+        for sp in specials:
+            late = nest(sp)
+            out.append({"top.yaml": "'*': [a, b]\n", "a.yaml": early, "b.yaml": late})
+            out.append({"top.yaml": "'*': [a]\n", "a.yaml": "include: [b]\n" + late, "b.yaml": early})
+            out.append({"top.yaml": "'*': [a]\n", "a.yaml": early + "include: [b]\n", "b.yaml": late})
+            out.append({"top.yaml": "'*': [a]\ns1: [b]\n", "a.yaml": early + "include: [c]\nz: 1\n", "b.yaml": late, "c.yaml": "q: 1\n"})
+    return out
+
+
+def limit_family():
+    """legal inputs at and beyond every limit a hardening could pick: include chains of depth 16 / 17 / 40 / 100 with data
+    at every level, wide include lists and wide top lists (17 / 40 / 100 files), long names, long keys and values,
+    many keys, unusual characters in names, keys and values"""
+    out = []
+    for depth in (16, 17, 40, 100):
+        tree = {"top.yaml": "'*': [l1]\n"}
+        for i in range(1, depth + 1):
+            inc = "include: [l%d]\n" % (i + 1) if i < depth else ""
+            tree["l%d.yaml" % i] = "d%d: %d\nshared: {at: %d, k%d: 1}\n%sa%d: %d\n" % (i, i, i, i, inc, i, i)
+        out.append(tree)
+        # the same chain inside nested directories with relative includes
+        tree = {"top.yaml": "'*': [p.l1]\n"}
+        for i in range(1, depth + 1):
+            inc = "include: [.l%d]\n" % (i + 1) if i < depth else ""
+            tree["p/l%d.yaml" % i] = "d%d: %d\n%s" % (i, i, inc)
+        out.append(tree)
+    for width in (17, 40, 100):
+        names = ["w%d" % i for i in range(width)]
+        files = {"%s.yaml" % n: "v: %d\nm: {%s: 1}\n" % (i, n) for i, n in enumerate(names)}
+        out.append(dict(files, **{"top.yaml": "'*': [%s]\n" % ", ".join(names)}))
+        out.append(dict(files, **{"top.yaml": "'*': [a]\n", "a.yaml": "x: 1\ninclude: [%s]\ny: 1\n" % ", ".join(names)}))
+        out.append(dict(files, **{"top.yaml": "".join("'%s or s1': [%s]\n" % (n, n) for n in names)}))
+    # directory depth
+    deep = ".".join("d%d" % i for i in range(20))
+    out.append({"top.yaml": "'*': [%s.f]\n" % deep, deep.replace(".", "/") + "/f.yaml": "k: 1\ninclude: [%s]\n" % ("." * 21 + "r"),
+                "r.yaml": "root: 1\n"})
+    # long names, keys, values; many keys
+    long_seg = "n" * 240
+    out.append({"top.yaml": "'*': [%s, %s.%s]\n" % (long_seg, long_seg, long_seg), long_seg + ".yaml": "k: 1\n",
+                long_seg + "/" + long_seg + ".yaml": "m: 1\n"})
+    out.append({"top.yaml": "'*': [a, b]\n", "a.yaml": "%s: %s\n" % ("k" * 4096, "v" * 4096), "b.yaml": "%s: {x: 1}\nshort: ''\n" % ("k" * 255)})
+    out.append({"top.yaml": "'*': [a, b]\n", "a.yaml": "".join("k%d: %d\n" % (i, i) for i in range(300)),
+                "b.yaml": "".join("k%d: {n: %d}\n" % (i, i) for i in range(299, 150, -1))})
+    # unusual but legal characters in file names, keys and values (YAML escapes for the non-printable ones)
+    out.append({"top.yaml": "'*': ['My File-1', 'd.Sub Dir.x_y', '\u00e9t\u00e9', '0', 'top file']\n", "My File-1.yaml": "a: 1\n",
+                "d/Sub Dir/x_y.yaml": "b: 1\ninclude: ['.z z']\n", "d/Sub Dir/z z.yaml": "c: 1\n", "\u00e9t\u00e9.yaml": "e: 1\n",
+                "0.yaml": "z: 0\n", "top file.yaml": "t: 1\n"})
+    out.append({"top.yaml": "'*': ['top file']\n", "top file.yaml": "t: 1\n"})
+    out.append({"top.yaml": "'*': [a, b]\n",
+                "a.yaml": "\"ke y\": \"\\t tab \\x01 \\x7f \\xe9 \\n nl\"\n' ': ' '\n\"\\xa0\": 1\n'#': '#'\n'k:k': 'a: b'\n",
+                "b.yaml": "' ': {' ': ' '}\n'ke y': ''\n\"\\xa0\": ~\n"})
     return out
 
 
@@ -273,6 +343,17 @@ class C11(Check):
                 for ml in (False, True):
                     yield {"tree": tree, "engine": engine, "ml": ml, "ms": True, "allow_empty": False,
                            "sys": "s1", "pd": {}, "pv": ""}
+        for tree in nested_value_family():
+            for ml in (False, True):
+                yield {"tree": tree, "engine": False, "ml": ml, "ms": True, "allow_empty": False, "sys": "s1", "pd": {}, "pv": ""}
+        for i, tree in enumerate(limit_family()):
+            yield {"tree": tree, "engine": bool(i % 2), "ml": False, "ms": True, "allow_empty": False, "sys": "s1", "pd": {}, "pv": ""}
+        # unusual but valid configuration values (truthy / falsy non-bools where the code only tests truth)
+        for tree in directed()[:6] + falsy_family()[:6]:
+            for raw in ({"merge_lists": 1, "merge_sets": 0, "allow_empty_top": "yes"}, {"merge_lists": "", "merge_sets": 2.5, "allow_empty_top": 0},
+                        {"merge_lists": [0], "merge_sets": None, "allow_empty_top": 1.0}):
+                yield {"tree": tree, "engine": False, "ml": bool(raw["merge_lists"]), "ms": bool(raw["merge_sets"]),
+                       "allow_empty": bool(raw["allow_empty_top"]), "raw_config": raw, "sys": "s1", "pd": {}, "pv": ""}
         for tree in falsy_family():
             for engine in (False, True):
                 for ae in (False, True):
